@@ -1321,6 +1321,63 @@ theorem centeredRep_bounds (P x : Nat) (hP : 0 < P) :
   have := Nat.mod_lt (x + P / 2) hP
   constructor <;> omega
 
+/-! ## 9. `ModUpExact` with the exact / off-by-one index -/
+
+/-- **`ModUpExact`, exact and off-by-one index.**  If lane `t` of `p1` holds the residues of `x_t < Qb = Π qs` then,
+for every target row `j`: when the IEEE index equals the exact `v = ⌊Σ y_i/q_i⌋` the limb is `≡ x (mod p_j)`; when it
+is one too large the limb is `≡ x − Qb`, one too small `≡ x + Qb`; always `< (k+2)·p_j`. -/
+theorem modUpExact_exact (Q P : List Nat) (levelP : Nat) (hlP : levelP < P.length) (p1 : Rows)
+    (hpos : 0 < p1.length) (hn : p1.length ≤ Q.length) (hC : Chain (Q.take p1.length)) (k : Nat)
+    (hk : (Q.take p1.length).sum ≤ k * W) (hT : Target P k) (hW : ∀ r ∈ p1, ∀ x ∈ r, x < W)
+    (xs : List Nat) (hxs : ∀ x ∈ xs, x < prodN (Q.take p1.length))
+    (hcols : transpose p1 = xs.map (residues (Q.take p1.length))) (j : Nat) (hj : j ≤ levelP) :
+    List.Forall₂ (fun x out =>
+        (fidx Q (hpsY (Q.take p1.length) (residues (Q.take p1.length) x))
+            = hpsV (Q.take p1.length) (hpsY (Q.take p1.length) (residues (Q.take p1.length) x)) →
+          out % P.getD j 0 = x % P.getD j 0 ∧ out < (k + 2) * P.getD j 0)
+        ∧ (fidx Q (hpsY (Q.take p1.length) (residues (Q.take p1.length) x))
+            = hpsV (Q.take p1.length) (hpsY (Q.take p1.length) (residues (Q.take p1.length) x)) + 1 →
+          (out + prodN (Q.take p1.length)) % P.getD j 0 = x % P.getD j 0 ∧ out < (k + 2) * P.getD j 0)
+        ∧ (fidx Q (hpsY (Q.take p1.length) (residues (Q.take p1.length) x)) + 1
+            = hpsV (Q.take p1.length) (hpsY (Q.take p1.length) (residues (Q.take p1.length) x)) →
+          out % P.getD j 0 = (x + prodN (Q.take p1.length)) % P.getD j 0 ∧ out < (k + 2) * P.getD j 0))
+      xs (row (modUpExact Q P (genModUpConstants (Q.take p1.length) P) levelP p1) j) := by
+  have key := modUpExact_limbs Q P levelP hlP p1 hpos hn hC k hk hT hW j hj
+  rw [hcols, List.forall₂_map_left_iff] at key
+  have hqlen : (Q.take p1.length).length = p1.length := by rw [List.length_take]; omega
+  have hp0 : 0 < P.getD j 0 := (hT.prime _ (getD_mem P j (by omega))).pos
+  generalize hqs : Q.take p1.length = qs at *
+  have hne : qs ≠ [] := by intro h; rw [h] at hqlen; simp at hqlen; omega
+  have hp' : ∀ q ∈ qs, Nat.Prime q ∧ q < 2 ^ 64 :=
+    fun q hq => ⟨hC.prime q hq, by have := hC.small q hq; omega⟩
+  have hpos' : ∀ q ∈ qs, 0 < q := fun q hq => (hC.prime q hq).pos
+  have hcop := pairwise_coprime_of_primes qs hC.prime hC.nodup
+  -- strengthen: the statement for every x ∈ xs
+  have hall : ∀ x ∈ xs, x < prodN qs := hxs
+  clear hxs
+  generalize row (modUpExact Q P (genModUpConstants qs P) levelP p1) j = outs at key
+  clear hcols
+  induction key with
+  | nil => exact .nil
+  | @cons x out xs' outs h _ ih =>
+    refine .cons ?_ (ih (fun y hy => hall y (List.mem_cons_of_mem _ hy)))
+    have hx := hall x (List.mem_cons_self ..)
+    have hy := hpsY_ok qs x (hinv_of_primes qs hp' hC.nodup) hpos'
+    obtain ⟨_, hvlt⟩ := hps_sum qs _ x hne hcop hpos' hx hy
+    refine ⟨fun hv => ?_, fun hv => ?_, fun hv => ?_⟩
+    · obtain ⟨c, l⟩ := h (by rw [hv]; omega)
+      rw [hv] at c
+      exact ⟨by rw [c]; exact hpsOut_exact qs hC hne x _ hx hp0, l⟩
+    · obtain ⟨c, l⟩ := h (by rw [hv]; omega)
+      refine ⟨?_, l⟩
+      have := modUp_off_by_one_hi qs _ x (P.getD j 0) _ hcop hpos' hx hy hp0 hv
+      rw [← c] at this
+      rw [← this, Nat.mod_add_mod]
+    · obtain ⟨c, l⟩ := h (by omega)
+      refine ⟨?_, l⟩
+      rw [c]
+      exact modUp_off_by_one_lo qs _ x (P.getD j 0) _ hcop hpos' hx hy hp0 hv
+
 end Lattigo.BasisExt
 
 #print axioms Lattigo.BasisExt.multSum_spec
@@ -1336,3 +1393,5 @@ end Lattigo.BasisExt
 #print axioms Lattigo.BasisExt.modDownLane_spec
 #print axioms Lattigo.BasisExt.modDownQPtoQ_limbs
 #print axioms Lattigo.BasisExt.modDownQPtoP_limbs
+#print axioms Lattigo.BasisExt.centred_lane
+#print axioms Lattigo.BasisExt.modUpExact_exact
